@@ -108,6 +108,7 @@ def pipeline(tier):
     cases = make_cases(tier, sd)
     binary = vlib.build_test("", wd, name="dawn")
     traces = vlib.run_harness(binary, "TestVerifCache", cases, wd)
+    traces, crashes = vlib.split_crashes(traces)
     stalls = [t for t in traces if t.get("stall")]
     traces = [t for t in traces if not t.get("stall")]
     by_id = {c["id"]: c for c in cases}
@@ -138,6 +139,9 @@ def pipeline(tier):
         for x in v["viol"]:
             out.append({"prop": x["prop"], "what": x["what"], "key": x.get("key", ""), "at": x.get("at"), "id": v["id"],
                         "case": by_id.get(v["id"]), "mode": tr_by_id[v["id"]]["mode"]})
+    for t in crashes:
+        out.append({"prop": "C20", "what": "the process was killed by the Go runtime inside the cache: " + t["crash"], "key": "", "at": 0,
+                    "id": t["id"], "case": None, "mode": "crash"})
     res["violations"] = out
     ctl = [t for t in traces if t["mode"] != "stress" and t.get("steps")]
     sample = ctl if tier != "quick" else ctl[:: max(1, len(ctl) // 500)]
